@@ -18,9 +18,9 @@ import traceback
 
 from . import seams
 from .seams import SimExit, StepBudgetExceeded, StepClock, Tripwires, WallTimeout, Window
-from .simfs import HarnessError, SimCrash, SimFS
+from .simfs import REPO, HarnessError, SimCrash, SimFS
 
-REPO_PREFIXES = ("/repo/compiler/", "/repo/lib/py/")
+REPO_PREFIXES = (REPO + "/compiler/", REPO + "/lib/py/")
 SYSTEM_OPS = ("parse", "parse_string", "lint", "render", "cli")
 MAX_BUDGET = 120_000_000
 WALL_LIMIT_S = 60.0
@@ -49,8 +49,8 @@ def import_bitproto():
     import bitproto.renderer
 
     f = bitproto.__file__ or ""
-    if not f.startswith("/repo/") and not os.environ.get("VERIF_ALLOW_NONREPO"):
-        raise HarnessError("bitproto imported from %r, not from /repo's working tree" % f)
+    if not f.startswith(REPO + "/") and not os.environ.get("VERIF_ALLOW_NONREPO"):
+        raise HarnessError("bitproto imported from %r, not from the working tree %s" % (f, REPO))
     return bitproto
 
 
@@ -222,7 +222,7 @@ class CompilerProcess:
             rec["msg"] = msg
             if rec["outcome"].startswith("internal:"):
                 rec["tb"] = [
-                    "%s:%s" % (fr.filename.replace("/repo/compiler/", ""), fr.name)
+                    "%s:%s" % (fr.filename.replace(REPO + "/compiler/", ""), fr.name)
                     for fr in traceback.extract_tb(exc.__traceback__)
                     if "/verif/" not in fr.filename
                 ][-12:]
